@@ -225,8 +225,8 @@ def c06(ck, env, add, thorough, keys, wraps=()):
         nls = [1, 8, 11, 12, 13, 16, 17, 31, 32, 33, 64, 127, 128, 129, 300]
     else:
         pls = [0, 1, 15, 16, 17, 33, 64, 65, 129, 255, 257, 271, 513, 1100]
-        als = [0, 1, 16, 17, 65, 129]
-        nls = [1, 12, 13, 16, 17, 129]
+        als = [0, 1, 16, 17, 65, 129, 144, 160, 183]
+        nls = [1, 12, 13, 16, 17, 129, 160, 183]
     tuples = sorted(set([(12, pl, al, 16) for pl in pls for al in (0, 5)] + [(12, pl, 16, ts) for pl in (0, 17, 271) for ts in (12, 13, 15, 16)] +
                         [(12, pl, al, 16) for al in als for pl in (0, 37)] + [(nl, pl, 3, 16) for nl in nls for pl in (0, 17, 271)]))
     eng = env.engine()
